@@ -303,9 +303,15 @@ var shEcos = map[string]*shEco{
 	"maven": {Gen: brackets("", true), Pre: []string{"-alpha-1", "-rc1", "-SNAPSHOT"}, Arity: []int{1, 2, 3}},
 }
 
+// ecosystems whose version grammar has build metadata that the order ignores
+var c05MetaEcos = map[string]bool{"npm": true, "cargo": true, "composer": true, "hex": true}
+
+// ecosystems whose pre-release tag is an arbitrary SemVer identifier list
+var c05TagEcos = map[string]bool{"npm": true, "cargo": true, "hex": true}
+
 func checkC05(ctx *Ctx) {
 	res := ctx.Res
-	res.Rule = "per ecosystem and per documented shorthand construct (caret, tilde, ~>, ~=, wildcard/x-range, hyphen, brackets; base arities X / X.Y / X.Y.Z / with pre-release; bases over {0,1,2,3,9,10} so that 0.x and 0.0.x occur): the range must parse, and for every probe Contains must equal membership in the documented interval, decided by the implementation's Compare against the interval's bounds written as versions; probes = a grid of numeric versions over {0,1,2,3,4,9,10,11} in the ecosystem's arities, each also with the ecosystem's pre-release spellings, plus the bounds themselves. Probe restrictions of the property: composer stable only, pypi final/post only; where the documented upper (resp. wildcard lower) bound carries no pre-release floor, pre-releases of that bound are not claimed. non-trivial = distinct (range, probe) with the probe between one component below the lower and one above the upper bound"
+	res.Rule = "per ecosystem and per documented shorthand construct (caret, tilde, ~>, ~=, wildcard/x-range, hyphen, brackets; base arities X / X.Y / X.Y.Z / with pre-release; bases over {0,1,2,3,9,10} so that 0.x and 0.0.x occur): the range must parse, and for every probe Contains must equal membership in the documented interval, decided by the implementation's Compare against the interval's bounds written as versions; probes = a grid of numeric versions over {0,1,2,3,4,9,10,11} in the ecosystem's arities, each also with the ecosystem's pre-release spellings, plus the bounds themselves and the textual neighbours of the base (one byte shorter/longer, one more identifier); half of the pre-release bases take their tag from a wider vocabulary (-hotfix, -rc.x, -LINUX, ...), 15% of the full (X.Y.Z) caret/tilde bases carry build metadata. Probe restrictions of the property: composer stable only, pypi final/post only; where the documented upper (resp. wildcard lower) bound carries no pre-release floor, pre-releases of that bound are not claimed. non-trivial = distinct (range, probe) with the probe between one component below the lower and one above the upper bound"
 	nCases := 60
 	if !ctx.Quick {
 		nCases = 1200
@@ -356,6 +362,18 @@ func checkC05(ctx *Ctx) {
 		for _, gen := range se.Gen {
 			for it := 0; it < nCases; it++ {
 				c := gen(r)
+				// other spellings of the same documented interval: (i) a pre-release base with a tag
+				// from a wider vocabulary (tags that end in x, X, a digit, an upper-case word: a tag is
+				// an opaque identifier list), (ii) build metadata on the base of a caret/tilde form
+				// (ignored by the order, so the interval is the same)
+				if i := strings.IndexByte(c.Lo, '-'); i > 0 && strings.HasSuffix(c.Construct, "-pre") && strings.HasSuffix(c.Rng, c.Lo[i:]) && c05TagEcos[name] && r.Chance(50) {
+					tag := r.Pick([]string{"-hotfix", "-rc.x", "-LINUX", "-x", "-alpha.X", "-0x", "-beta.1", "-pre.x.x", "-a.b.c", "-rc.10", "-X", "-1x"})
+					c.Rng = strings.TrimSuffix(c.Rng, c.Lo[i:]) + tag
+					c.Lo = c.Lo[:i] + tag
+				}
+				if c05MetaEcos[name] && r.Chance(15) && !strings.ContainsAny(c.Rng, " ,[]()*xX|") && c.Lo != "" && strings.Contains(c.Construct, "X.Y.Z") {
+					c.Rng += r.Pick([]string{"+build.5", "+b", "+20240101.1", "+exp.sha.5114f85", "+x.x"})
+				}
 				pr := e.ParseRange(c.Rng)
 				res.Evaluations++
 				if !pr.OK {
@@ -394,7 +412,12 @@ func checkC05(ctx *Ctx) {
 				}
 				perConstruct[c.Construct]++
 				probes, pvals := pstr, pval
-				for _, extra := range []string{c.Lo, c.Hi} {
+				xs := []string{c.Lo, c.Hi}
+				if c.Lo != "" {
+					// neighbours of the base in text: one byte shorter, one byte longer, one more identifier
+					xs = append(xs, c.Lo[:len(c.Lo)-1], c.Lo+"w", c.Lo+".9", c.Lo[:len(c.Lo)-1]+".9", c.Lo+"0")
+				}
+				for _, extra := range xs {
 					if extra != "" {
 						if p := e.Parse(extra); p.OK && (se.ProbeOK == nil || se.ProbeOK(extra, p.Val)) {
 							probes = append(probes[:len(probes):len(probes)], extra)
